@@ -141,7 +141,7 @@ def setup (kv : KV) (evs : List Ev) : Setup :=
 def runWith {σ : Type} (su : Setup) (dir : Panoc.Direction (Latch σ) Float) (d0 : σ) : String :=
   let c0 : Cross (Latch σ) := { m := { st := d0 }, chk := { evs := su.devs } }
   let r := Panoc.run su.P (crossDir dir) c0 su.pr su.stop su.oot su.x0 su.y0 su.sig su.errz0
-    (nanV su.n) (0.0/0.0)
+    (nanV su.n) (0.0/0.0) (1.0/0.0)
   let s := r.stats
   let untouched := fmtV r.x == fmtV su.x0 && fmtV r.y == fmtV su.y0
   let sLine := s!"S {statusStr s.status} {s.iterations} {fmtF s.eps} {s.lsFailures} {s.lsBacktracks} " ++
